@@ -232,6 +232,11 @@ Section RavelProofs.
     eapply Forall_impl; [|exact H]. intros r Hr. simpl. apply unravel_wf_shape. exact Hr.
   Qed.
 
+  Theorem ravel_unravel_iso_both (s : stree) (M : list (list A)) :
+    Forall (fun r => length r = size s) M ->
+    ravel_iso (unravel_iso s M) = M /\ coeffs_ok s (unravel_iso s M).
+  Proof. intro H. split; [apply ravel_unravel_iso|apply unravel_iso_ok]; exact H. Qed.
+
   (* ------------------------------------------------------------------ T15.2 *)
   Lemma nth_concat d (rows : list (list A)) i a :
     Forall (fun r => length r = d) rows -> i < length rows -> a < d ->
